@@ -298,6 +298,21 @@ func c07Child(args []string) {
 		rm()
 	}
 	for n := 1; n <= nops; n++ {
+		if killHook == "@swapdir" && n == nops/2 {
+			// restore-style swap inside one process: the WAL directory is moved away and a new,
+			// empty directory is created under the same path; directory fsyncs must go to the
+			// directory that is there now
+			m.mark("BEGIN %d close", n)
+			w.Close()
+			m.mark("ACK %d close ok", n)
+			if err := os.Rename(dir, dir+".old"); err != nil || os.Mkdir(dir, 0o755) != nil {
+				m.mark("SWAP failed")
+				os.Exit(8)
+			}
+			m.mark("SWAPPED directory")
+			w = open(n)
+			first, last = 0, 0
+		}
 		x := rng.Intn(100)
 		switch {
 		case x < 62 || last == 0:
@@ -708,6 +723,8 @@ func c07Scenario(c *evid.Ctx, seed int64, kills []string, nops int, only ...stri
 			killHook = strings.TrimPrefix(kill, "hook:")
 		case kill == "pinned":
 			killHook = "@pinned"
+		case kill == "swapdir":
+			killHook = "@swapdir"
 		}
 		inject := ""
 		if strings.HasPrefix(kill, "inject:") {
@@ -749,6 +766,12 @@ func c07Scenario(c *evid.Ctx, seed int64, kills []string, nops int, only ...stri
 			if nf > 0 {
 				c.Distinct("rule_paths", "R1R2|commit-after-a-failed-"+strings.SplitN(inject, ":", 2)[0])
 			}
+		} else if kill == "swapdir" {
+			if err != nil {
+				c.Violation("C07:child-failed", fmt.Sprintf("workload child failed: %v %.300s", err, out), mo.replay)
+				return
+			}
+			c.Distinct("rule_paths", "R1R2|directory replaced under the same path in one process")
 		} else if kill == "pinned" {
 			if err != nil {
 				c.Violation("C07:child-failed", fmt.Sprintf("workload child failed: %v %.300s", err, out), mo.replay)
@@ -825,6 +848,8 @@ func runC07(c *evid.Ctx) {
 		// trace-level rules are evaluated: un-fsynced writes and the directory fsync)
 		{[]string{"pinned"}, 8, ":R"},
 		{[]string{"pinned", "pinned"}, 6, ":R"},
+		// the directory is swapped for a new one under the same path inside one process
+		{[]string{"swapdir"}, 30, ":R1:|:R2:"},
 		// failing fsyncs (of segment files and of the directory) injected into the kernel calls:
 		// the calls that hit them return errors, later ones succeed and are acknowledged - and
 		// must still satisfy R1 and R2 (only successful fsyncs count)
